@@ -18,6 +18,15 @@ def ceilNat (x : Rat) : Nat :=
   let ad := if d < 0 then -d else d
   if ad < 1 / (2 : Rat) ^ 120 then r.toNat else (Rat.ceil x).toNat
 
+/-- `C02_grid_ends`: with the true `log10` / `10 ** x` the trial distances start at `dmin` and end at `dmax`.
+    The driver's `lg` / `exp10` are 2⁻¹⁵⁰-accurate approximations, so the two end points are pinned to the
+    values the theorem gives (a radius `θ·dmin` that sits exactly on a tabulated aperture stays on it). -/
+def pinEnds (dmin dmax : Rat) (ds : List Rat) : List Rat :=
+  match ds with
+  | [] => []
+  | [d] => [d]
+  | _ :: rest => dmin :: (rest.dropLast ++ [dmax])
+
 def showErr : ApErr → String
   | .tooSmall => "tooSmall"
   | .outOfRange => "outOfRange"
@@ -64,7 +73,7 @@ def opFit3 : Rd String := do
   let dmin ← rat; let dmax ← rat; let step ← rat
   let srcs ← listOf (listOf readObs)
   let ks := wavs.map (getAv tab v)
-  let dists := distancesKpc lg exp10 ceilNat dmin dmax step
+  let dists := pinEnds dmin dmax (distancesKpc lg exp10 ceilNat dmin dmax step)
   let nm := match bands with
     | [] => 0
     | b :: _ => b.2.length
@@ -115,7 +124,7 @@ def opFit3 : Rd String := do
 /-- `grid dmin dmax step` → `n ceilMargin  n {log10 d}*  n {d}*` -/
 def opGrid : Rd String := do
   let dmin ← rat; let dmax ← rat; let step ← rat
-  let dists := distancesKpc lg exp10 ceilNat dmin dmax step
+  let dists := pinEnds dmin dmax (distancesKpc lg exp10 ceilNat dmin dmax step)
   let ceilM : Rat := if dmin = dmax then 1 else intMargin (1 + (lg dmax - lg dmin) / step)
   let g := if dmin = dmax then [lg dmin] else distGrid ceilNat (lg dmin) (lg dmax) step
   pure s!"{dists.length} {showRat ceilM} {showRats g} {showRats dists}"
